@@ -8,6 +8,8 @@ package refstore
 
 import (
 	"context"
+	"errors"
+	"strings"
 
 	"github.com/zitadel/oidc/v3/pkg/oidc"
 	"github.com/zitadel/oidc/v3/pkg/op"
@@ -18,6 +20,9 @@ type TEPolicy struct {
 	ForceType     oidc.TokenType // "" = keep; else SetRequestedTokenType(ForceType) whatever was asked
 	Subject       string         // "" = keep; else SetSubject(Subject) (impersonation policy)
 	EmptyScopes   bool           // SetCurrentScopes([]) after the veto/drop handling
+	// Verifier: the storage also implements the OPTIONAL op.TokenExchangeTokensVerifierStorage
+	// (ExtVerifier below); only honoured by AsStorageTEWith.
+	Verifier bool
 }
 
 // TEP is TE under a policy.
@@ -89,4 +94,77 @@ func (s *Store) AsStorageTEPolicy(p TEPolicy) op.Storage {
 		TEP
 		Dev
 	}{s, CC{s}, TEP{TE{s}, p}, Dev{s}}
+}
+
+// ExtVerifier is the OPTIONAL storage interface op.TokenExchangeTokensVerifierStorage with a policy
+// that DIFFERS BY ROLE. It knows third-party tokens of the form "ext:<class>:<subject>" only:
+// class S is vouched for as subject token only, A as actor token only, B in both roles, N in
+// none. The declared type must be one of the four the library supports (an absent type is
+// refused). The id it returns is the token itself.
+type ExtVerifier struct{ S *Store }
+
+// ExtToken builds such a token.
+func ExtToken(class byte, subject string) string { return "ext:" + string(class) + ":" + subject }
+
+// ParseExtToken: class and subject of a third-party token.
+func ParseExtToken(token string) (class byte, subject string, ok bool) {
+	if !strings.HasPrefix(token, "ext:") || len(token) < 6 || token[5] != ':' {
+		return 0, "", false
+	}
+	switch token[4] {
+	case 'S', 'A', 'B', 'N':
+		return token[4], token[6:], true
+	}
+	return 0, "", false
+}
+
+func (v ExtVerifier) verify(ctx context.Context, method, token string, typ oidc.TokenType, roles string) (string, string, map[string]any, error) {
+	if err := v.S.enter(ctx, method); err != nil {
+		return "", "", nil, err
+	}
+	switch typ {
+	case oidc.AccessTokenType, oidc.RefreshTokenType, oidc.IDTokenType, oidc.JWTTokenType:
+	default:
+		return "", "", nil, errors.New("token type not handled")
+	}
+	class, sub, ok := ParseExtToken(token)
+	if !ok || !strings.ContainsRune(roles, rune(class)) {
+		return "", "", nil, errors.New("not vouched for in this role")
+	}
+	return token, sub, nil, nil
+}
+
+func (v ExtVerifier) VerifyExchangeSubjectToken(ctx context.Context, token string, typ oidc.TokenType) (string, string, map[string]any, error) {
+	return v.verify(ctx, "VerifyExchangeSubjectToken", token, typ, "SB")
+}
+
+func (v ExtVerifier) VerifyExchangeActorToken(ctx context.Context, token string, typ oidc.TokenType) (string, string, map[string]any, error) {
+	return v.verify(ctx, "VerifyExchangeActorToken", token, typ, "AB")
+}
+
+// AsStorageTEWith: the store with all optional capabilities, token exchange under policy p,
+// optionally CanGetPrivateClaimsFromRequest, and - when p.Verifier - TokenExchangeTokensVerifierStorage.
+func (s *Store) AsStorageTEWith(p TEPolicy, fromRequest bool) op.Storage {
+	switch {
+	case p.Verifier && fromRequest:
+		return struct {
+			*Store
+			CC
+			TEP
+			Dev
+			FromRequest
+			ExtVerifier
+		}{s, CC{s}, TEP{TE{s}, p}, Dev{s}, FromRequest{s}, ExtVerifier{s}}
+	case p.Verifier:
+		return struct {
+			*Store
+			CC
+			TEP
+			Dev
+			ExtVerifier
+		}{s, CC{s}, TEP{TE{s}, p}, Dev{s}, ExtVerifier{s}}
+	case fromRequest:
+		return s.AsStorageTEPolicyFromRequest(p)
+	}
+	return s.AsStorageTEPolicy(p)
 }
